@@ -24,6 +24,13 @@ def corrupt(rng, p, frac, family):
     """Returns per-line field overrides (None = intact)."""
     n = len(p["nums"])
     k = int(frac * (n - 1))
+    if family == "tail-forward" and k > 0:
+        idx = list(range(n - k, n))
+        off = rng.choice([15000, 120000, 1800000])
+        out = [None] * n
+        for i in idx:
+            out[i] = tg.fields(p["rec"][i] + off)      # the whole tail runs late by the same amount: times stay increasing
+        return out, idx
     if family == "clustered" and k > 0:
         s0 = rng.randrange(1, max(2, n - k))
         idx = list(range(s0, min(n, s0 + k)))
@@ -71,6 +78,7 @@ def run(res, tier, seed):
                 for family in ("iid", "clustered"):
                     plans.append((fmt, n, frac, family, rng.choice(["plain", "plain", "midnight"])))
             plans.append((fmt, n, 0.3, "near-header", "plain"))
+            plans.append((fmt, n, rng.choice([0.1, 0.25, 0.39]), "tail-forward", "plain"))
             plans.append((fmt, n, 0.3, "dayplus", "midnight"))
     coq = []
     adversarial_fail = []
